@@ -341,6 +341,30 @@ func (sc *siteCollector) program() {
 		}
 	}
 
+	// a value whose type holds `any` somewhere - in the first, a middle or the last field of an
+	// object type, directly or inside a list - used without a cast
+	if isMain {
+		for _, shape := range []struct {
+			name   string
+			fields []hs.Field
+			stmt   string
+		}{
+			{"first-of-two", []hs.Field{{Name: "a", T: hs.TAny}, {Name: "b", T: hs.TInt}}, "let"},
+			{"middle-of-three-in-a-list", []hs.Field{{Name: "a", T: hs.TInt}, {Name: "b", T: hs.TList(hs.TAny)}, {Name: "c", T: hs.TStr}}, "expression"},
+			{"last-of-two", []hs.Field{{Name: "a", T: hs.TInt}, {Name: "b", T: hs.TAny}}, "let"},
+			{"first-of-two-nested", []hs.Field{{Name: "o", T: hs.TObj(hs.Field{Name: "x", T: hs.TAny}, hs.Field{Name: "y", T: hs.TInt})}, {Name: "b", T: hs.TInt}}, "expression"},
+		} {
+			shape := shape
+			sc.add(reftype.RAny, "object-with-any-field-used-without-cast-"+shape.name, nil, []string{"stmt:" + shape.stmt}, func() {
+				var st hs.Stmt = hs.ES(hs.V("zz_p"))
+				if shape.stmt == "let" {
+					st = hs.LetS("_zz_q", hs.V("zz_p"))
+				}
+				p.Funcs = append(p.Funcs, hs.Fn("zz_take", nil, hs.Blk(nil, st), hs.P("zz_p", hs.TObj(shape.fields...))))
+			})
+		}
+	}
+
 	// impl blocks
 	for _, ib := range p.Impls {
 		sc.impl(ib)
